@@ -8,7 +8,8 @@
       every path with its kind and content id, and the error class;
     - hostile archives (written with archive/zip directly): the same for
       UnzipToFolder alone, starting from a pre-populated snapshot directory;
-    - lexical cases: filepath.Clean / Join / Rel against clean / join / rel.
+    - lexical cases: filepath.Clean / Join / Rel / Split against clean / join /
+      rel / split_dir, and "drop one trailing slash" against ensure_dir_name.
 
     Encoding: every case carries a table of segments (byte lists); paths are
     lists of indices into it ([ipath]).  Contents are small ids (the harness
@@ -61,7 +62,8 @@ Record uobs := mkU {
 
 Record zrun := mkZ { z_filter : fkind; z_rec : bool; z_res : N; z_unzip : option uobs }.
 
-Record lexobs := mkL { l_a : ipath; l_b : ipath; l_clean : ipath; l_join : ipath; l_rel : option ipath }.
+Record lexobs := mkL { l_a : ipath; l_b : ipath; l_clean : ipath; l_join : ipath; l_rel : option ipath;
+                       l_splitdir : ipath; l_ensure : ipath }.
 
 Inductive body :=
 | BTree (src : ipath) (files : list (ipath * N)) (runs : list zrun)
@@ -105,7 +107,7 @@ Definition check_unzip (tab : list seg) (ar : list entry) (u : uobs) : bool :=
   let r := unzip (dec tab (u_dest u)) ar (mk_fs par (dec_nodes tab (u_before u))) in
   N.eqb (ures_code (snd r)) (u_res u) && fs_matches par (fst r) (dec_nodes tab (u_after u)).
 
-Definition check_zrun (tab : list seg) (src : rpath) (t : tree) (z : zrun) : bool :=
+Definition check_zrun_as (tab : list seg) (src : rpath) (t : tree) (z : zrun) : bool :=
   match zip_folder src (filt_of (z_filter z)) (z_rec z) t with
   | ZOk es =>
       N.eqb (z_res z) 0 &&
@@ -113,6 +115,15 @@ Definition check_zrun (tab : list seg) (src : rpath) (t : tree) (z : zrun) : boo
   | ZErr => N.eqb (z_res z) 1
   | ZPanic => N.eqb (z_res z) 2
   end.
+
+(* the source directory as the harness spelled it; for a spelling that is not
+   clean ("a//b", "a/./b", "a/.") ZipFolder cuts entry names at the wrong
+   byte (see C20_zip_unclean_src_mangles_names): there the observation is
+   accepted when it is what the model says for the given spelling OR what it
+   says for the cleaned spelling (what a repaired ZipFolder would do).  For a
+   clean spelling both are the same term. *)
+Definition check_zrun (tab : list seg) (src : rpath) (t : tree) (z : zrun) : bool :=
+  check_zrun_as tab src t z || check_zrun_as tab (clean_str src) t z.
 
 Definition opath_eqb (a b : option rpath) : bool :=
   match a, b with
@@ -126,7 +137,9 @@ Definition check_lex (tab : list seg) (o : lexobs) : bool :=
   let b := dec tab (l_b o) in
   path_eqb (clean_str a) (dec tab (l_clean o))
   && path_eqb (join a b) (dec tab (l_join o))
-  && opath_eqb (rel a b) (option_map (dec tab) (l_rel o)).
+  && opath_eqb (rel a b) (option_map (dec tab) (l_rel o))
+  && path_eqb (split_dir a) (dec tab (l_splitdir o))
+  && path_eqb (ensure_dir_name a) (dec tab (l_ensure o)).
 
 Definition mk_entry (tab : list seg) (e : ipath * bool * N) : entry :=
   mkE (dec tab (fst (fst e))) (snd (fst e)) (snd e).
